@@ -47,6 +47,8 @@ def check_vector_lifting(run, tree, dunders=FORWARDED, want_kinds=True):
                     rhss += [("number", 2.0, lambda c: ("num", 2.0)), ("ndarray", NdTok(), lambda c: "nd"),
                              ("Quantity", QtyTok(), lambda c: ("magnitude", "q")), ("Array", ArrTok("A", "w"), lambda c: "A")]
                 for kind, rhs, want_r in rhss:
+                    # a fresh left operand per case: the in-place operators update its components
+                    L, _ = make_vector(tree, {c: "L." + c for c in "xyz"[:n]}, hooks=hooks)
                     try:
                         res = call_method(tree, hooks, L, d, rhs)
                     except Raised as e:
@@ -202,6 +204,14 @@ def check_vector_nvec(run, tree):
 
 
 # =============================================================================== Datagroup / Dataset histories
+def pub(tree, hooks, obj, name):
+    """a public attribute read the way client code reads it (properties included), not through the instance dict"""
+    try:
+        return _ev(tree, hooks, DG_Q + ".__init__").obj_getattr(obj, name)
+    except Raised:
+        return None
+
+
 def new_group(tree, hooks):
     ev = _ev(tree, hooks, DG_Q + ".__init__")
     return ev.instantiate(tree.cls(DG_Q), [], {}, None)
@@ -808,7 +818,7 @@ def check_dataset_histories(run, tree):
         ds = new_ds()
         g = new_group(tree, hooks)
         call_method(tree, hooks, ds, "__setitem__", "gas", g)
-        return ds._attrs["groups"].get("gas") is g and g._attrs.get("name") == "gas" and g._attrs.get("parent") is ds, "name=%r parent set=%s" % (g._attrs.get("name"), g._attrs.get("parent") is ds)
+        return ds._attrs["groups"].get("gas") is g and pub(tree, hooks, g, "name") == "gas" and pub(tree, hooks, g, "parent") is ds, "name=%r parent set=%s" % (pub(tree, hooks, g, "name"), pub(tree, hooks, g, "parent") is ds)
 
     @case("a value that is not a Datagroup is rejected and nothing is stored", "ds['x'] = an Array is stored (or renamed) instead of raising TypeError")
     def c2():
@@ -826,12 +836,12 @@ def check_dataset_histories(run, tree):
         ds = new_ds()
         g1, g2 = new_group(tree, hooks), new_group(tree, hooks)
         call_method(tree, hooks, ds, "update", {"a": g1, "b": g2})
-        ok = g1._attrs.get("name") == "a" and g2._attrs.get("parent") is ds
+        ok = pub(tree, hooks, g1, "name") == "a" and pub(tree, hooks, g2, "parent") is ds
         try:
             call_method(tree, hooks, ds, "update", {"c": A("c", 3)})
             return False, "update accepted a non-group"
         except Raised as e:
-            return ok and e.name == "TypeError", "names %r/%r; bad update raises %s" % (g1._attrs.get("name"), g2._attrs.get("name"), e.name)
+            return ok and e.name == "TypeError", "names %r/%r; bad update raises %s" % (pub(tree, hooks, g1, "name"), pub(tree, hooks, g2, "name"), e.name)
 
     @case("overwriting a key keeps its position; get / pop / in / len / iteration agree with the contents (empty groups included)",
           "ds[k] = g for an existing non-last key moves k to the end; get(k) returns the default for a stored but empty group")
@@ -857,7 +867,7 @@ def check_dataset_histories(run, tree):
         call_method(tree, hooks, ds, "__setitem__", "K", g)
         call_method(tree, hooks, ds, "__setitem__", "other", g)
         call_method(tree, hooks, ds, "__setitem__", "K", g)
-        return g._attrs.get("name") == "K" and g._attrs.get("parent") is ds, "name after re-insertion %r" % g._attrs.get("name")
+        return pub(tree, hooks, g, "name") == "K" and pub(tree, hooks, g, "parent") is ds, "name after re-insertion %r" % pub(tree, hooks, g, "name")
 
     @case("clear empties groups and metadata; pop/del/get/len/iteration behave like a dict", "clear() leaves metadata behind / pop returns nothing")
     def c5():
